@@ -12,3 +12,4 @@ import WowVerif.Props.C19
 import WowVerif.Props.C01
 import WowVerif.Props.C02
 import WowVerif.Props.C06
+import WowVerif.Props.C07
